@@ -19,7 +19,13 @@ type CexTerm struct {
 
 // cexScript appends value queries to a single-part script.
 func cexScript(c *Ctx, p OblPart, terms []CexTerm) string {
-	base := c.Script(p.NAssume, p.NegGoal, false)
+	var extra []Term
+	for _, t := range terms {
+		if !t.T.Sort.IsArr() && t.T.S != "" {
+			extra = append(extra, t.T)
+		}
+	}
+	base := c.Script(p.NAssume, p.NegGoal, false, extra...)
 	base = strings.Replace(base, "(set-logic ALL)\n", "(set-option :produce-models true)\n(set-logic ALL)\n", 1)
 	var b strings.Builder
 	b.WriteString(strings.TrimSuffix(base, "(check-sat)\n"))
